@@ -155,6 +155,18 @@ def shows(shown, full):
     return bool(m) and full.startswith(shown[:m.start()]) and len(shown) < len(full)
 
 
+def width_law(kind, shown, line, width):
+    """Target / Spec lines fit the width; a payload is cut only when it would not fit, and then the line
+    uses the whole width (error lines are never cut)"""
+    if kind not in ('T', 'S'):
+        return None
+    if len(line) > width:
+        return 'trace line wider than the width %d: %r' % (width, line[:60])
+    if SUFFIX.search(shown) and len(line) != width:
+        return 'a truncated line does not use the whole width %d (length %d): %r' % (width, len(line), line[:60])
+    return None
+
+
 def check_widths(st, obs, proj):
     """long / non-ASCII root target and other widths: same lines, every payload a faithful (possibly
     truncated) rendering, no line wider than the width"""
@@ -173,8 +185,9 @@ def check_widths(st, obs, proj):
         return 'a long root target changes the structure of the trace'
     full = repr(frames.BigTok.__new__(frames.BigTok, (0,))) if False else 't0<' + '\u00e9\u4e16' * 90 + '>'
     for (d, k, text), line in zip(bproj, body):
-        if k in ('T', 'S') and len(line) > TRACE_WIDTH:      # error lines are never truncated
-            return 'trace line wider than the width %d: %r' % (TRACE_WIDTH, line[:60])
+        w = width_law(k, text, line, TRACE_WIDTH)
+        if w:
+            return w
         if k == 'T' and text.startswith('t0<') and not shows(text, full):
             return 'truncated target %r is not a faithful prefix of its repr' % (text[:60],)
     # other widths through the formatter the message is built with
@@ -189,8 +202,26 @@ def check_widths(st, obs, proj):
             wl = text.split('\n')
             if len(wl) != len(body):
                 return 'width %d changes the number of trace lines (%d vs %d)' % (w, len(wl), len(body))
-            if any(len(l) > w for l, (d, k, _) in zip(wl, bproj) if k in ('T', 'S')):
-                return 'width %d: a Target / Spec line is wider than the width' % w
+            for l, (d, k, _) in zip(wl, bproj):
+                j = l.index(' ', 1)
+                rest = l[j + 1:]
+                shown = rest[8:] if rest.startswith('Target: ') else rest[6:] if rest.startswith('Spec: ') else rest
+                wv = width_law(k, shown, l, w)
+                if wv:
+                    return 'width %d: %s' % (w, wv)
+    # the message ends with the type and the FULL message of the original error, also when that message
+    # has several lines, blank lines or caret-only lines
+    res = st['res']
+    if res['rootn']:
+        ml = frames.execute(st['tree'], st['plan'], hook=False, multiline_for=res['rootn'])
+        if ml['out'] == 'err':
+            try:
+                tail = str(ml['error']).split('\n')[-4:]
+            except Exception as ex:
+                return 'str(error) raised %s for a multi-line error message' % type(ex).__name__
+            want = ('planted %d\n  in detail:\n\n      ^' % res['rootn']).split('\n')
+            if not tail[0].endswith(want[0]) or tail[1:] != want[1:]:
+                return 'the message does not end with the full multi-line message of the original error: %r' % (tail,)
     return None
 
 
